@@ -189,14 +189,15 @@ type plainTransport struct{ e *Endpoint }
 func (p plainTransport) FinalAdvertiseAddr(ip string, port int) (net.IP, int, error) {
 	return p.e.FinalAdvertiseAddr(ip, port)
 }
-func (p plainTransport) WriteTo(b []byte, addr string) (time.Time, error) { return p.e.WriteTo(b, addr) }
-func (p plainTransport) PacketCh() <-chan *memberlist.Packet               { return p.e.PacketCh() }
+func (p plainTransport) WriteTo(b []byte, addr string) (time.Time, error) {
+	return p.e.WriteTo(b, addr)
+}
+func (p plainTransport) PacketCh() <-chan *memberlist.Packet { return p.e.PacketCh() }
 func (p plainTransport) DialTimeout(addr string, timeout time.Duration) (net.Conn, error) {
 	return p.e.DialTimeout(addr, timeout)
 }
 func (p plainTransport) StreamCh() <-chan net.Conn { return p.e.StreamCh() }
 func (p plainTransport) Shutdown() error           { return p.e.Shutdown() }
-
 
 func (ch *Chaos) apply(a faultAction) {
 	switch a.Kind {
